@@ -111,19 +111,26 @@ class DilutionPlan:
                 break
 
         # prepare remaining columns by diluting existing ones
+        # (keeping track of the volume that remains available in every well of the prepared columns)
+        available = [numpy.repeat(float(vmax_arr[c]), R) for c, _, _, _ in instructions]
         for c in range(len(instructions), C):
             # find the first source column that can be used (with sufficient transfer volume)
             for src_c in range(0, len(instructions)):
                 _, src_df, _, _ = instructions[src_c]
                 vtransfer = numpy.ceil(vmax_arr[c] * ideal_targets[:, c] / actual_targets[src_c])
                 # take the leftmost column (least dilution steps) where the minimal transfer volume is exceeded
-                if all(vtransfer >= min_transfer):
+                # and that still holds enough volume for a transfer that fits into the target column
+                if all(vtransfer >= min_transfer) and all(
+                    vtransfer <= numpy.minimum(available[src_c], vmax_arr[c])
+                ):
                     instructions.append(
                         # increment the dilution step counter
                         (c, src_df + 1, src_c, vtransfer)
                     )
                     # compute the actually achieved target concentration
                     actual_targets.append(vtransfer * actual_targets[src_c] / vmax_arr[c])
+                    available[src_c] = available[src_c] - vtransfer
+                    available.append(numpy.repeat(float(vmax_arr[c]), R))
                     break
 
         if len(actual_targets) < C:
